@@ -681,7 +681,7 @@ def lu_factor(matrix_a, b):
 
     # Solve the system of linear equations
     for i in range(dim):
-        bt = [b1[i] for b1 in b]
+        bt = [sum(p[r][c] * b[c][i] for c in range(num_x)) for r in range(num_x)]  # P b: rows of b follow the pivoting
         y = forward_substitution(m_l, bt)
         xt = backward_substitution(m_u, y)
         for j in range(num_x):
